@@ -316,7 +316,15 @@ def check_validate(ctx):
     if b is not None:
         somes = [n.id for n in b.nodes if n.kind == "assign" and not n.ev["dst"]["p"] and n.ev["dst"]["l"] == 0 and n.ev["rv"] == "agg" and n.ev.get("var") == "Some"]
         va = ctx.sites(b, R.call("Metadata::validate"), inst, exact=1)
-        R.guard(ctx, inst, b, somes, R.guard_edges_for_call(b, va, "true"), "Some(metadata) only when validate() holds")
+        # `validate().then_some(metadata)` is the same guard without a branch: the metadata becomes the answer through a
+        # bool::then_some / then whose receiver is the verdict itself
+        ts = [n for n in b.calls() if (call_matches(n.ev, "bool::then_some") or call_matches(n.ev, "bool::then")) and
+              R.arg_expr(b, n, 0).k == "call" and R.arg_expr(b, n, 0).nid in va and
+              (not n.ev["dest"]["p"] and (n.ev["dest"]["l"] == 0 or any(c.nid == n.id for d in b.defs.get(0, []) for c in A.tracer(b).node_value(d).calls())))]
+        if ts and not somes:
+            ctx.ok(inst, "GUARD", b.path, "Some(metadata) only when validate() holds", b.where(ts[0].id))
+        else:
+            R.guard(ctx, inst, b, somes, R.guard_edges_for_call(b, va, "true"), "Some(metadata) only when validate() holds")
         ln = A.pred_switches(b, lambda e: e.k == "bin" and e.extra == "Lt" and e.has_const(name="METADATA_ENCODED_SIZE"))
         ctx.check(len(ln) == 1, inst, "PIN", b.path, "short input is rejected before slicing", None)
     b = ctx.fn("Metadata::validate", inst)
